@@ -9,5 +9,6 @@ func TestReplay_Front(t *testing.T) {
 	frontReplay("TestProp_C10_Routing", runC10)
 	frontReplay("TestProp_C08_Auth", runC08)
 	frontReplay("TestProp_C09_Replay", runC09)
+	frontReplay("TestProp_C11_Authz", runC11)
 	frontReplay("TestProp_C17_Inbound", runC17In)
 }
